@@ -144,6 +144,13 @@ def search_patterns_for(R, vp, names, cur_text, n, legacy=False, allow_pep=True,
                 partial_cands.append(c)
         if "MAJOR" in names and "MINOR" in names:
             partial_cands += PARTIALS_SEMVER
+    # search patterns that carry the same field twice: a calendar stamp next to the full version
+    combo_cands = []
+    if not legacy and allow_partial:
+        for c in ("released 0D/0M/YYYY as {version}", "{version} (YYYY-0M)", "YYYY: {version}"):
+            need = set(ref.parts_in(ref.parse_pattern(c.replace("{version}", ""))))
+            if all(_determined(names, x) for x in need):
+                combo_cands.append(c)
     bare_mode = R.random() < 0.3
     if bare_mode:
         pats.append("{pep440_version}" if (pep_ok and R.random() < 0.3) else "{version}")
@@ -163,6 +170,8 @@ def search_patterns_for(R, vp, names, cur_text, n, legacy=False, allow_pep=True,
         elif r < 0.8 and not bare_mode and pep_ok and pdecor:
             a, b = pdecor.pop()
             p = esc_pattern_literal(a) + "{pep440_version}" + esc_pattern_literal(b)
+        elif combo_cands and not bare_mode and R.random() < 0.5:
+            p = combo_cands.pop()
         elif partial_cands:
             p = partial_cands.pop()
         if p is None:
